@@ -54,7 +54,7 @@ def cases(draw, tier):
     late = tuple(p for p in provs if p.startswith("late"))
     async_mode = draw(st.sampled_from(["none", "none", "all", "mixed", "one"]))
     spec = draw(gen.machine_spec(max_states=4, max_extra=5, providers=provs, late=late, async_mode=async_mode, sends=draw(st.sampled_from([False, False, True])),
-                                 shared_names=True))
+                                 shared_names=True, attach=("conv", "name", "func", "deco", "partial", "bound")))
     is_async = gen.is_async_spec(spec)
     cfg = {"rtc": True if is_async else draw(st.sampled_from([True, True, False])), "allow": draw(st.booleans()),
            "driver": draw(st.sampled_from(["sync", "loop"])), "activate": draw(st.booleans()), "late": list(late)}
